@@ -648,7 +648,15 @@ class Gen:
         r = self.rng
         streams = []
         files, dirs = {}, {()}
-        snames = [()] + r.sample([("sub",), ("sub", "deep"), ("run1",), ("run10",), ("x y",), ("d",)], r.randint(0, 2))
+        pool = [("sub",), ("sub", "deep"), ("run1",), ("run10",), ("x y",), ("d",), ("run1 old",), ("sub.bak", "x"),
+                ("run1", "logs")]
+        if r.random() < 0.5:
+            # sibling directories whose names string-extend each other (run1 / run10 / "run1 old", sub / sub.bak)
+            fam = r.choice([[("run1",), ("run10",)], [("run1",), ("run1 old",)], [("sub",), ("sub.bak", "x")],
+                            [("run1",), ("run10",), ("run1", "logs")], [("sub",), ("sub", "deep"), ("sub.bak", "x")]])
+            snames = [()] + fam
+        else:
+            snames = [()] + r.sample(pool, r.randint(0, 2))
         for sn in snames:
             blocks = [(self.fresh_seed(), r.choice([0, 1, 3, 5, 8, 13, 20])) for _ in range(r.randint(0, 3))]
             total = sum(b[1] for b in blocks)
@@ -787,7 +795,10 @@ class Gen:
                 fs, ds = self.coll_paths[ci]
                 base = tuple(c for c in m[4].split("/") if c not in ("", "."))
                 cands = [p[len(base):] for p in fs + ds if p[:len(base)] == base]
-                if cands:
+                dcands = [p[len(base):] for p in ds if p[:len(base)] == base and len(p) > len(base)]
+                if dcands and r.random() < 0.5:
+                    inner = r.choice(dcands)
+                elif cands:
                     inner = r.choice(cands)
                 if r.random() < 0.08 and not clean:
                     inner = inner + ("nope",)
